@@ -89,6 +89,13 @@ FIXED = {
     'interrupt_proto_plain': 'char t; void tick() { t++; } void vblank(); void unused() { t = 9; } void interrupt vblank() { tick(); } void main() { while (t) { } }',
     'interrupt_proto_qualified': 'char t; void tick() { t++; } void interrupt vblank(); void unused() { t = 9; } void interrupt vblank() { tick(); } void main() { while (t) { } }',
     'interrupt_two': 'char t; void tick() { t++; } void tock() { t--; } void a_irq(); void b_irq(); void interrupt b_irq() { tock(); } void interrupt a_irq() { tick(); } void main() { t = 0; }',
+    # a function whose NAME starts like the interrupt keyword is an ordinary function (no root)
+    'interrupt_prefix_name': 'char t; void interrupt_tick() { t++; } void inline_it() { t--; } void main() { t = 0; }',
+    'interrupt_prefix_called': 'char t; void interrupt_tick() { t++; } void unused() { t = 3; } void main() { interrupt_tick(); }',
+    # calls into another bank go through a trampoline `Call<name>`: the CALLEE is what the tree records
+    'banked_call': 'char t; bank1 void helper() { t++; } bank1 void far(char v) { t = v; helper(); } void dead() { t = 9; } bank1 void dead1() { t = 8; } void main() { far(1); }',
+    'banked_call_two': 'char t; bank2 void leaf() { t++; } bank1 void far() { t = 2; } void near() { leaf(); } void main() { far(); near(); }',
+    'banked_call_inline': 'char t; bank1 void far() { t = 2; } inline void via() { far(); } void unused() { t = 1; } void main() { via(); }',
     'in_condition': 'char a, b; char t(char x) { return x + 1; } char u(char x) { return x; } void main() { if (t(a) == 2 && u(b)) a = 0; for (X = t(b); X != 3; X = u(X) + 1) { } }',
     'inline_calls_further': 'char a; void deep() { a++; } inline void mid() { deep(); } void main() { mid(); mid(); }',
 }
@@ -99,6 +106,11 @@ FIXED_GRAPH = {
     'interrupt_proto_plain': ({'tick': [], 'unused': [], 'vblank': ['tick'], 'main': []}, ['main', 'vblank']),
     'interrupt_proto_qualified': ({'tick': [], 'unused': [], 'vblank': ['tick'], 'main': []}, ['main', 'vblank']),
     'interrupt_two': ({'tick': [], 'tock': [], 'a_irq': ['tick'], 'b_irq': ['tock'], 'main': []}, ['main', 'a_irq', 'b_irq']),
+    'interrupt_prefix_name': ({'interrupt_tick': [], 'inline_it': [], 'main': []}, ['main']),
+    'interrupt_prefix_called': ({'interrupt_tick': [], 'unused': [], 'main': ['interrupt_tick']}, ['main']),
+    'banked_call': ({'helper': [], 'far': ['helper'], 'dead': [], 'dead1': [], 'main': ['far']}, ['main']),
+    'banked_call_two': ({'leaf': [], 'far': [], 'near': ['leaf'], 'main': ['far', 'near']}, ['main']),
+    'banked_call_inline': ({'far': [], 'via': ['far'], 'unused': [], 'main': ['via']}, ['main']),
     'in_condition': ({'t': [], 'u': [], 'main': ['t', 'u', 't', 'u']}, ['main']),
     'inline_calls_further': ({'deep': [], 'mid': ['deep'], 'main': ['mid', 'mid']}, ['main']),
 }
@@ -212,8 +224,12 @@ def run(ctx):
                 for l in fx.get('final') or []:
                     # a JSR inside an inlined body is recorded under the inlined function: the callee must
                     # be reachable from the function whose code contains it
-                    if l[0] == 'I' and l[1] == 'JSR' and l[6] not in reach(tree, [fx['name']]):
-                        problems.append('JSR %s emitted in %s but not recorded' % (l[6], fx['name']))
+                    if l[0] == 'I' and l[1] == 'JSR':
+                        fnames = set(x['name'] for x in r['funcs'])
+                        # a call into another bank jumps to the trampoline Call<name>
+                        tgt = l[6][4:] if l[6].startswith('Call') and l[6] not in fnames and l[6][4:] in fnames else l[6]
+                        if tgt not in reach(tree, [fx['name']]):
+                            problems.append('JSR %s emitted in %s but %s is not recorded' % (l[6], fx['name'], tgt))
             want = reach(g, sroots)
             if inuse != want:
                 problems.append('in-use set %s differs from the functions reachable in the source %s' % (sorted(inuse), sorted(want)))
